@@ -372,6 +372,12 @@ fn cmd_ipm(args: &Args) {
         if run % 3 == 1 {
             p.tag.push_str("+touch");
         }
+        if run % 4 == 2 && !capture {
+            p.tag.push_str("+prior");
+        }
+        if run % 7 == 3 {
+            p.tag.push_str("+flip");
+        }
         let opts = rec_ipm::RunOpts { capture_print: capture, detail: args.num("detail", 0) as usize, ..Default::default() };
         let out = rec_ipm::run_ipm(run, &p, &opts);
         cases.push(json!({"run": run, "problem": p}));
